@@ -566,6 +566,12 @@ calc_grep_atom(const char *fmt)
 			res.pl.off_max += -1;
 			res.pl.flags |= GRPATM_DIGITS;
 			break;
+		case DT_SPFL_N_NANO:
+			/* printed with 9 digits, read with 1 to 9 */
+			res.pl.off_min += -9;
+			res.pl.off_max += -1;
+			res.pl.flags |= GRPATM_DIGITS;
+			break;
 		default:
 			break;
 		}
